@@ -16,8 +16,10 @@ EXTENDS Naturals, Sequences, FiniteSets
 \* L1 and L2 are two distinct types that PRINT the same name (declared in different scopes) - they never
 \* occur together in one scenario
 Concrete == {"T1", "T2", "T3", "T4", "T5", "T6", "U1", "PE", "L1", "L2"}
-Ifaces   == {"I1", "I2", "E"}
-Impl     == {<<"T1", "I1">>, <<"T2", "I1">>, <<"T2", "I2">>, <<"T3", "I2">>, <<"PE", "E">>}
+\* I12 is an interface embedding I1 and I2 (implemented by T2 only): an interface implementing wider interfaces
+Ifaces   == {"I1", "I2", "E", "I12"}
+Impl     == {<<"T1", "I1">>, <<"T2", "I1">>, <<"T2", "I2">>, <<"T3", "I2">>, <<"PE", "E">>,
+             <<"T2", "I12">>, <<"I12", "I1">>, <<"I12", "I2">>}
 
 L(n, t, s) == [name |-> n, type |-> t, sub |-> s]
 Ran(f) == {f[i] : i \in DOMAIN f}
